@@ -33,10 +33,15 @@ Inductive xevent :=
 | XLogin (l : login) (o : obs)
 | XRequest (host path : str) (c : cref) (o : obs).
 
+(* the world around the proxy: the recording backends (authority -> id) and, as a net/http oracle,
+   the wire form of Host values that net/http's client does not send verbatim (a non-ASCII Host is
+   sent in its IDNA ASCII form) — measured by the harness with a plain http.Client *)
+Record wtab := { w_wire : list (str * str); w_backends : list (str * N) }.
+
 Inductive case :=
 | CHist (dflt : str) (svcs : list service)
         (mt : list (str * str * bool)) (rt : list (str * str * str * str))
-        (backends : list (str * N)) (evs : list xevent).
+        (backends : wtab) (evs : list xevent).
 
 (* ---- projection of a model response onto the observables ---- *)
 Definition kind_code (k : kind) : N :=
@@ -47,12 +52,18 @@ Definition kind_code (k : kind) : N :=
 Fixpoint backend_of (bs : list (str * N)) (t : str) : option N :=
   match bs with [] => None | (hp, i) :: bs' => if str_eqb hp t then Some i else backend_of bs' t end.
 
-Definition project (bs : list (str * N)) (r : response) : obs :=
-  let b := match r_target r with Some t => backend_of bs t | None => None end in
+Fixpoint wire_of (wt : list (str * str)) (h : str) : str :=
+  match wt with [] => h | (a, b) :: wt' => if str_eqb a h then b else wire_of wt' h end.
+
+Definition project (bs : wtab) (r : response) : obs :=
+  let b := match r_target r with Some t => backend_of (w_backends bs) t | None => None end in
   {| o_kind := kind_code (r_kind r);
      o_backend := b;
      (* what a backend saw is observable only when one was reached *)
-     o_fwd_host := match b with Some _ => r_fwd_host r | None => None end;
+     o_fwd_host := match b with
+                   | Some _ => match r_fwd_host r with Some h => Some (wire_of (w_wire bs) h) | None => None end
+                   | None => None
+                   end;
      o_user := match b with Some _ => r_user r | None => None end;
      o_cookie := r_cookie r;
      o_slug := r_slug r |}.
@@ -136,11 +147,23 @@ Definition spec_request (slug_of : upstream -> str) (cfg : list upstream) (q : r
            end
   end.
 
+(* a sign-in has a flow record exactly when the request that opened it was one the proxy answers
+   with a sign-in redirect: a routed host, not the health check, not a skip-auth path *)
+Definition spec_flow (cfg : list upstream) (l : login) : bool :=
+  match spec_route cfg (l_start l) with
+  | None => false
+  | Some u0 =>
+      negb (str_eqb (l_spath l) ping_path) &&
+      negb (existsb (fun p => re_match p (l_spath l)) (u_skip u0))
+  end.
+
+(* The callback belongs to the upstream ITS Host names, wherever the sign-in was opened: that
+   upstream's login gate judges the user, and the session is bound to the callback's Host. *)
 Definition spec_login (slug_of : upstream -> str) (cfg : list upstream) (l : login) : response :=
   match spec_route cfg (l_host l) with
   | None => plain KMisdirected CkNone None
   | Some u =>
-      if login_admit lower (u_policy u) (l_email l) (l_groups l) then
+      if spec_flow cfg l && login_admit lower (u_policy u) (l_email l) (l_groups l) then
         plain KLoginOk (CkSet {| s_slug := slug_of u; s_upstream := l_host l; s_email := l_email l |})
               (Some (slug_of u))
       else plain KLoginRefused CkNone (Some (slug_of u))
@@ -151,7 +174,7 @@ Definition spec_login (slug_of : upstream -> str) (cfg : list upstream) (l : log
 Definition issued_of (l : login) (o : obs) : option (str * session) :=
   match o_cookie o with CkSet s => Some (l_host l, s) | _ => None end.
 
-Fixpoint monitor (slug_of : upstream -> str) (bs : list (str * N)) (cfg : list upstream)
+Fixpoint monitor (slug_of : upstream -> str) (bs : wtab) (cfg : list upstream)
          (seen : list (option (str * session))) (xs : list xevent) : bool :=
   match xs with
   | [] => true
